@@ -124,10 +124,42 @@ def go(args, timeout=600, cwd=None, env=None):
                           stderr=subprocess.STDOUT, text=True, timeout=timeout)
 
 
+class build_lock:
+    """serialises the build phases of concurrently running checks (flock on build/.lock; re-entrant per process)"""
+    _depth = 0
+    _fh = None
+
+    def __enter__(self):
+        import fcntl
+        cls = build_lock
+        if cls._depth == 0:
+            os.makedirs(BUILD, exist_ok=True)
+            cls._fh = open(os.path.join(BUILD, ".lock"), "w")
+            fcntl.flock(cls._fh, fcntl.LOCK_EX)
+        cls._depth += 1
+        return self
+
+    def __exit__(self, *a):
+        import fcntl
+        cls = build_lock
+        cls._depth -= 1
+        if cls._depth == 0:
+            fcntl.flock(cls._fh, fcntl.LOCK_UN)
+            cls._fh.close()
+            cls._fh = None
+
+
 def build(pkg="harness", race=False, out=None):
-    """Build ./verif<pkg> from the current tree. Returns the binary path. Raises BuildError."""
+    """Build ./verif<pkg> from the current tree. Returns the binary path. Raises BuildError.
+    The binary is built under a private name and renamed into place (a running copy is never overwritten)."""
+    with build_lock():
+        return _build(pkg, race, out)
+
+
+def _build(pkg, race, out):
     broken = prepare()
-    out = out or os.path.join(BUILD, "verif" + pkg + ("-race" if race else ""))
+    final = out or os.path.join(BUILD, "verif" + pkg + ("-race" if race else ""))
+    out = final + f".tmp{os.getpid()}"
     args = ["build", "-tags", "verif", "-modfile", os.path.join(BUILD, "alt.mod"),
             "-overlay", os.path.join(BUILD, "overlay.json"), "-o", out]
     env = {}
@@ -137,10 +169,15 @@ def build(pkg="harness", race=False, out=None):
     args.append("." if pkg == "fan2go" else "./verif" + pkg)
     r = go(args, env=env)
     if r.returncode != 0:
+        try:
+            os.remove(out)
+        except OSError:
+            pass
         raise BuildError("go build failed for verif" + pkg, r.stdout + "\n".join(broken))
+    os.replace(out, final)
     if broken:
         raise BuildError("source rewrite tie broken", "\n".join(broken))
-    return out
+    return final
 
 
 if __name__ == "__main__":
